@@ -20,6 +20,10 @@ RULE = (
     "non-trivial = old != new and old accepts at least one call shape; distinct = distinct (old,new) pair"
 )
 ASSUMPTIONS = [
+    "extra renderings (sampled 1/397 quick, 1/47 thorough per rendering): 'api-built' - the new function is the old one whose `parameters` "
+    "were edited into the new signature through Parameters.__setitem__/add/__delitem__ (all four clauses; an exception raised by that API "
+    "or by the differ is a failure); 'reexport>direct', 'direct>reexport', 'reexport>reexport' - the public m.f is re-exported from the "
+    "private module m._impl on one or both sides (only 'call-breaking => some breakage on m.f or m._impl.f' and 'identical => silent')",
     "class renderings (sampled 1/41 quick, 1/11 thorough per rendering): the same pairs as @staticmethod, ordinary method and @classmethod of a "
     "public class S, judged with all four clauses on m.S.f; the implicit self/cls is written before the text, so it is positional-only iff "
     "the text contains `/` - a CHANGED_KIND breakage on it is justified exactly then, any other breakage naming it is not",
